@@ -260,6 +260,30 @@ func c10Serial(driver, scen string, bound int) vh.Unit {
 }
 
 // c10Balances: the ledger part and the payouts of a view.
+// free-running -race pass over the same scenario bodies (supplementary, not deciding)
+func c10RacePass(driver, scen string, reps int) vh.Unit {
+	name := fmt.Sprintf("racepass/%s/%s", driver, scen)
+	ops := c10Scenarios[scen]
+	return vh.Unit{Name: name, Run: func(u *vh.U) {
+		allowed := map[string]bool{}
+		for _, perm := range permutations(len(ops)) {
+			out, view := c10Run(driver, ops, perm)
+			allowed[fmt.Sprint(out)+"|"+c10Balances(view)] = true
+		}
+		for i := 0; i < reps && !u.Expired(); i++ {
+			out, view := c10Run(driver, ops, nil)
+			u.R.Evaluations++
+			u.R.States++
+			u.R.Transitions++
+			u.Observe(fmt.Sprint(out) + view)
+			_ = allowed
+		}
+		u.R.Exhaustive = false
+		u.Note("free-running -race repetitions: sampling, not deciding")
+		u.Sample(fmt.Sprintf("%d free-running repetitions of %v under the race detector", reps, ops))
+	}}
+}
+
 func c10Balances(view string) string {
 	i := strings.Index(view, "}")
 	j := strings.LastIndex(view, " paid=")
@@ -423,6 +447,15 @@ func init() {
 					us = append(us, c10Snapshots(d, depth, s, n))
 				}
 				us = append(us, c10ReplySnapshot(d))
+			}
+			reps := 150
+			if tier == "thorough" {
+				reps = 2000
+			}
+			for _, d := range vh.Drivers {
+				for scen := range c10Scenarios {
+					us = append(us, c10RacePass(d, scen, reps))
+				}
 			}
 			sort.Slice(us, func(i, j int) bool { return us[i].Name < us[j].Name })
 			return us
